@@ -97,6 +97,16 @@ const DETACH: &[(&str, &str)] = &[
 
 /// Map / Set / object walkers whose callback or hook detaches entries
 const OTHER_WALKS: &[(&str, &str)] = &[
+    ("flatmap-scratch-buffer", "(function(){ var buf = []; return [0, 1, 2, 3, 4].flatMap(function(i){ buf.length = 0; buf.push({i: i, s: 'v' + i}, {j: i, a: [i]}); churn(); return buf; }); })()"),
+    ("flatmap-scratch-pop", "(function(){ var buf = []; return [0, 1, 2, 3, 4].flatMap(function(i){ while (buf.length) { buf.pop(); } churn(); buf.push({i: i, s: 'v' + i}); buf.push([{j: i}]); return buf; }); })()"),
+    ("flatmap-nested-scratch", "(function(){ var inner = []; return [0, 1, 2, 3].flatMap(function(i){ inner.length = 0; inner.push({i: i}); churn(); return [inner.slice(), inner]; }); })()"),
+    ("map-from-reused-pair", "(function(){ function* pairs(){ var pair = []; for (var i = 0; i < 5; i++) { pair[0] = {k: i}; pair[1] = {v: i, a: [i]}; churn(); yield pair; } } return [...new Map(pairs())]; })()"),
+    ("fromentries-reused-pair", "(function(){ function* pairs(){ var pair = []; for (var i = 0; i < 5; i++) { pair[0] = 'k' + i; pair[1] = {v: i, a: [i]}; churn(); yield pair; } } return Object.fromEntries(pairs()); })()"),
+    ("set-from-cleared-source", "(function(){ var src = []; function* vals(){ for (var i = 0; i < 5; i++) { src.length = 0; src.push({i: i, a: [i]}); churn(); yield src[0]; } src.length = 0; churn(); } return [...new Set(vals())]; })()"),
+    ("concat-scratch-buffer", "(function(){ var buf = []; var out = []; for (var i = 0; i < 5; i++) { buf.length = 0; buf.push({i: i}, [{j: i}]); out = out.concat(buf); churn(); } buf.length = 0; churn(); return out; })()"),
+    ("push-spread-scratch", "(function(){ var buf = []; var out = []; for (var i = 0; i < 5; i++) { buf.length = 0; buf.push({i: i}, [{j: i}]); out.push(...buf); churn(); } buf.length = 0; churn(); return out; })()"),
+    ("reduce-accumulator-swap", "(function(){ return [0, 1, 2, 3, 4].reduce(function(acc, i){ churn(); return {prev: acc.cur, cur: {i: i, a: [i]}}; }, {cur: null}); })()"),
+    ("promise-all-scratch", "(function(){ var seen = []; var buf = []; for (var i = 0; i < 3; i++) { buf.length = 0; buf.push(Promise.resolve({i: i})); Promise.all(buf).then(function(r){ seen.push(r); }); churn(); } return seen.length; })()"),
     ("map-forEach-clear", "(function(){ var m = new Map(); for (var i = 0; i < 6; i++) m.set(mk(i), mk(i + 10)); var out = []; var n = 0; m.forEach(function(v, k){ if (++n === 2) { m.clear(); churn(); } out.push([k, v]); }); return out; })()"),
     ("map-forof-delete", "(function(){ var m = new Map(); var keys = []; for (var i = 0; i < 6; i++) { var k = mk(i); keys.push(k); m.set(k, mk(i + 10)); } var out = []; for (var e of m) { out.push(e); m.delete(keys[out.length]); churn(); } keys.length = 0; churn(); return out; })()"),
     ("set-forEach-clear", "(function(){ var s = new Set(); for (var i = 0; i < 6; i++) s.add(mk(i)); var out = []; s.forEach(function(v){ if (out.length === 1) { s.clear(); churn(); } out.push(v); }); return out; })()"),
